@@ -199,7 +199,11 @@ def run_load(name, fmt, api, data, consume=("exhaust", 0), knobs=None, budget=No
     disk.put(name, data)
     del _SPY[:]
     rec = {"exc": None, "frames": [], "finished": None, "warnings": []}
-    with seams.Installed(disk), seams.MemPoison(knobs.get("mem")), warnings.catch_warnings(record=True) as wlist, Steps(budget, cover=cover) as st:
+    import numpy as _np
+
+    # environment knob: the application traps floating-point errors (np.seterr(all="raise")), as the iodata CLI itself does
+    fpctx = _np.errstate(all="raise") if knobs.get("fperr") == "raise" else _np.errstate()
+    with seams.Installed(disk), seams.MemPoison(knobs.get("mem")), fpctx, warnings.catch_warnings(record=True) as wlist, Steps(budget, cover=cover) as st:
         # environment knob: the caller runs with warnings promoted to errors (python -W error)
         warnings.simplefilter("error" if knobs.get("warnings") == "error" else "always")
         try:
@@ -591,7 +595,8 @@ def gen_trace(rng, tier):
              "knobs": {"chunk_size": rng.choice([None, None, 16, 512]),
                        "encoding": rng.choice(["utf-8"] * 6 + ["ascii", "latin-1"]),
                        "warnings": "error" if rng.random() < 0.12 else "always",
-                       "pathlib": rng.choice([False] * 8 + [True, "pathlike"]), "in_thread": rng.random() < 0.08}}
+                       "pathlib": rng.choice([False] * 8 + [True, "pathlike"]), "in_thread": rng.random() < 0.08,
+                       "fperr": "raise" if rng.random() < 0.1 else None}}
     if fmt is not None and not selectable(name, api, fmt):
         trace["api"] = api  # kept: FileFormatError expected
     return trace
